@@ -4,6 +4,8 @@
         overlay   = {original path under the tree: instrumented copy / added file},   (for `go test -overlay`)
         replaces  = {"golang.org/x/sync": <writable instrumented copy>},               (for the harness go.mod)
         placed    = [entry ids], missing = [{id,label,file,why}], sentinels = [ids of sentinel entries that WERE placed],
+        windows   = [ids of "window" entries placed (W labels: always placed, transparent in the comparison run)],
+        multi     = {id of an "all" entry: number of occurrences instrumented},
         log       = [str])
 
 Never raises on an edited tree: an anchor that is not found is reported in `missing`, everything else is placed.
@@ -89,6 +91,18 @@ def _find(lines, lo, hi, match, nth, prefix, contains=False):
     return None
 
 
+def _find_all(lines, lo, hi, alts):
+    """indexes of every non-comment line in [lo, hi] that contains one of the texts `alts` (text order)."""
+    out = []
+    for i in range(lo, hi + 1):
+        t = lines[i].strip()
+        if t.startswith("//"):
+            continue
+        if any(a in t for a in alts):
+            out.append(i)
+    return out
+
+
 def _held_at(lines, lo, anchor, opn, close):
     held = False
     for i in range(lo, anchor):
@@ -108,7 +122,7 @@ def instrument(table_path, workdir, repo):
     workdir = Path(workdir)
     repo = Path(repo)
     tab = json.loads(Path(table_path).read_text())
-    out = dict(overlay={}, replaces={}, placed=[], missing=[], sentinels=[], log=[])
+    out = dict(overlay={}, replaces={}, placed=[], missing=[], sentinels=[], windows=[], multi={}, log=[])
     roots = {"repo": repo}
     inst_root = workdir / "instr"
     shutil.rmtree(inst_root, ignore_errors=True)
@@ -155,6 +169,18 @@ def instrument(table_path, workdir, repo):
                     out["missing"].append(dict(id=e["id"], label=e["label"], file=rel, why="function %r not found" % e["func"]))
                 continue
             lo, hi = ext
+            if e.get("all"):
+                # every occurrence of one of the texts inside the function is instrumented; {n} = ordinal in text order
+                hits = _find_all(lines, lo, hi, e["match_any"])
+                if not hits:
+                    out["missing"].append(dict(id=e["id"], label=e["label"], file=rel, why="none of %r found in %s" % (e["match_any"], e["func"])))
+                    continue
+                out["multi"][e["id"]] = len(hits)
+                for n_, a in enumerate(hits, 1):
+                    ind = _indent(lines[a])
+                    text = [ind + t if t else t for t in e["insert"].replace("{n}", str(n_)).split("\n")]
+                    edits.append((a, e.get("where", "before"), text, dict(e, id="%s#%d" % (e["id"], n_))))
+                continue
             i = _find(lines, lo, hi, e["match"], int(e.get("nth", 1)), bool(e.get("prefix")), bool(e.get("contains")))
             if i is None:
                 if not e.get("sentinel"):
@@ -166,6 +192,8 @@ def instrument(table_path, workdir, repo):
                     continue
                 out["sentinels"].append(e["id"])
                 out.setdefault("sentinel_concerns", {})[e["id"]] = e["sentinel"].get("concerns") or []
+            if e.get("window"):
+                out["windows"].append(e["id"])
             where = e["where"]
             ind = _indent(lines[a])
             if where == "after" and (lines[a].rstrip().endswith("{") or lines[a].rstrip().endswith(":")):
